@@ -81,6 +81,13 @@ def catalogue(cfg, iso, sh, rng):
     for ns, kw in (('jol', 'joliet_path'), ('udf', 'udf_path')):
         if (ns == 'jol' and not cfg.joliet) or (ns == 'udf' and not cfg.udf):
             continue
+        # adds that name ONLY this namespace: nothing else is applied first, so a refusal must leave nothing behind
+        # (a refused UDF-only add_fp used to leave an untracked Inode that made the next write fail)
+        yield 'add_fp', 'missing-parent-only:' + ns, EARLY, (lambda kw=kw: iso.add_fp(fp(), 5, **{kw: '/nodir/only'}))
+        yield 'add_directory', 'missing-parent-only:' + ns, EARLY, (lambda kw=kw: iso.add_directory(**{kw: '/nodir/onlyd'}))
+        if files[ns]:
+            yield 'add_fp', 'duplicate-only:' + ns, EARLY, (lambda kw=kw, p=files[ns][0]: iso.add_fp(fp(), 5, **{kw: p}))
+            yield 'add_directory', 'duplicate-only:' + ns, EARLY, (lambda kw=kw, p=files[ns][0]: iso.add_directory(**{kw: p}))
         if files[ns]:
             yield 'rm_directory', 'is-a-file:' + ns, EARLY, (lambda kw=kw, p=files[ns][0]: iso.rm_directory(**{kw: p}))
         ne = [x for x in dirs[ns] if any(q.startswith(x + '/') for q in files[ns] + dirs[ns])]
